@@ -128,6 +128,7 @@ type Sim struct {
 	disconnectCalled bool
 	ka *kaState
 	stalled []*dialReq
+	mux     mqtt.Handler
 }
 
 type opState struct {
